@@ -105,7 +105,24 @@ fn build(dg: &[usize], pool: &[&str]) -> (Probe, bool) {
         }
     }
     let tagtext = format!("<{} {}>", tag, attrs.join(" "));
-    let src = format!("k1();\n{tagtext}\nPROBE();\n</{tag}>\nk2();\n");
+    // decoys before and after the probe: same tag name, same attribute values, other attribute
+    // names - never ready on their own account, and must not influence the probe
+    let decoy_attrs: Vec<String> = attrs
+        .iter()
+        .map(|a| {
+            if let Some(rest) = a.strip_prefix("name") {
+                format!("id{rest}")
+            } else if let Some(rest) = a.strip_prefix("to=") {
+                format!("until={rest}")
+            } else if a == "skip" {
+                "skipped".to_string()
+            } else {
+                a.clone()
+            }
+        })
+        .collect();
+    let decoy = format!("<{} {}>\nDECOY();\n</{tag}>\n", tag, decoy_attrs.join(" "));
+    let src = format!("k1();\n{decoy}{tagtext}\nPROBE();\n</{tag}>\n{decoy}k2();\n");
     let cfg = Cfg {
         tl: tl.into(),
         rm: rm.into(),
@@ -145,6 +162,12 @@ pub fn check(p: &Probe) -> Option<(String, String)> {
             format!("clean panicked: {}", e.site),
         )),
         Ok(out) => {
+            if out.matches("DECOY").count() != 2 {
+                return Some((
+                    "neighbour-element-affected".into(),
+                    format!("an element without name/to next to the probe was removed: {out:?}"),
+                ));
+            }
             let removed = !out.contains("PROBE") && !out.contains(&p.tag);
             let untouched = out == p.src;
             if removed == untouched {
@@ -237,11 +260,99 @@ pub fn run(r: &Report) {
     );
     r.expect_count("marker/skip probe product", expected, counted);
     if !r.stopped() {
+        duplicate_names(r);
+    }
+    if !r.stopped() {
         crate::props::cli::marker_rows(r);
     }
 }
 
+/// Several `name` attributes: the first one decides (assumption recorded in the evidence).
+fn duplicate_names(r: &Report) {
+    r.assume("an element with several `name` attributes is decided by the first one");
+    let mut l = r.local();
+    let rows: &[(&str, bool)] = &[
+        ("name=\"a\" name=\"b\"", true),
+        ("name=\"b\" name=\"a\"", false),
+        ("name name=\"a\"", false),
+        ("name=b name=\"a\"", false),
+        ("name=\"a\" name", true),
+        ("name=\"\" name=\"a\"", false),
+    ];
+    for (attrs, want) in rows {
+        for targets in [vec!["a".to_string()], vec!["a".to_string(), "c".to_string()]] {
+            let cfg = Cfg {
+                targets,
+                ..Cfg::standard()
+            };
+            let tag = format!("<rm {attrs}>");
+            let p = Probe {
+                src: format!("k1();\n{tag}\nPROBE();\n</rm>\nk2();\n"),
+                tag,
+                cfg,
+            };
+            l.eval();
+            l.transition(1);
+            let h = hash64(&[p.src.as_bytes(), format!("{:?}", p.cfg.targets).as_bytes()]);
+            l.state(h);
+            l.nontrivial(h);
+            l.trace_validated(1);
+            l.class("duplicate-name");
+            // the reference tag reader + rule (first `name` attribute) give `want`
+            debug_assert_eq!(
+                status(&ref_tag(&p.tag[1..p.tag.len() - 1]).unwrap(), &RCfg::from(&p.cfg)) == Status::Ready,
+                *want
+            );
+            let got = match run_clean(&p.src, "<", ">", &p.cfg) {
+                Ok(o) => !o.contains("PROBE"),
+                Err(e) => {
+                    l.violation(Violation {
+                        prop: "C06".into(),
+                        class: format!("panic@{}", panic_site_key(&e.site)),
+                        case: json!({"engine": "marker-dup", "src": p.src, "tag": p.tag, "cfg": p.cfg.to_json()}),
+                        detail: format!("clean panicked: {}", e.site),
+                    });
+                    continue;
+                }
+            };
+            if got != *want {
+                l.violation(Violation {
+                    prop: "C06".into(),
+                    class: "duplicate-name-not-first".into(),
+                    case: json!({"engine": "marker-dup", "src": p.src, "tag": p.tag, "cfg": p.cfg.to_json()}),
+                    detail: format!("tag {:?} targets {:?}: removed={got}, expected {want} (the first `name` attribute decides)", p.tag, p.cfg.targets),
+                });
+            }
+        }
+    }
+}
+
 pub fn replay(case: &Value) -> Vec<Violation> {
+    if case["engine"] == "marker-dup" {
+        let (Some(src), Some(tag), Some(cfg)) = (
+            case["src"].as_str(),
+            case["tag"].as_str(),
+            Cfg::from_json(&case["cfg"]),
+        ) else {
+            return vec![];
+        };
+        let want = status(&ref_tag(&tag[1..tag.len() - 1]).unwrap(), &RCfg::from(&cfg)) == Status::Ready;
+        return match run_clean(src, "<", ">", &cfg) {
+            Ok(o) if (!o.contains("PROBE")) != want => vec![Violation {
+                prop: "C06".into(),
+                class: "duplicate-name-not-first".into(),
+                case: case.clone(),
+                detail: format!("tag {tag:?}: removed={}, expected {want} (the first `name` attribute decides)", !want),
+            }],
+            Ok(_) => vec![],
+            Err(e) => vec![Violation {
+                prop: "C06".into(),
+                class: format!("panic@{}", panic_site_key(&e.site)),
+                case: case.clone(),
+                detail: format!("clean panicked: {}", e.site),
+            }],
+        };
+    }
     if case["engine"] == "cli" {
         return crate::props::cli::replay("C06", case);
     }
